@@ -21,6 +21,8 @@ TABLE = [
     ("c04", ["C04"], "the whole delete path (H5Group.delete_all traversal, H5Group.delete and its clean-up): the rest of the file "
                      "after a delete, compared by a canonical walk"),
     ("c05", ["C05"], "Feature.data, SourceLinkContainer.append, DimensionLink (unit / label forwarding, frame columns), re-linking"),
+    ("c07", ["C07"], "SampledDimension.axis (numpy arange / broadcasting), numpy isclose / floor / searchsorted behind the verified "
+                     "conversions: axes, round trips and index ranges against the order-theoretic definition on concrete descriptors"),
     ("c08", ["C08"], "Tag.tagged_data, MultiTag._calc_data_slices_mtag / tagged_data, feature_data dispatch and stop-rule plumbing: "
                      "brute-force scan of sample coordinates"),
     ("c12", ["C12"], "every refusing call, including the creating functions after their refusal point (roll-backs)"),
